@@ -4,6 +4,7 @@ package server
 
 import (
 	"fmt"
+	"os"
 	"reflect"
 	"sort"
 	"testing"
@@ -388,4 +389,65 @@ func c12CheckAssignments(step int, w *c12World, as map[string]partitionAssignmen
 
 func TestVerifC12(t *testing.T) {
 	vfutil.Run(t, vfutil.Spec[c12Case]{ID: "C12", Gen: genC12, Run: runC12})
+}
+
+// c12Alphabet is the finite operation alphabet of the bounded-exhaustive pass:
+// two streams (2 and 3 partitions), three members.
+func c12Alphabet() []c12Op {
+	var a []c12Op
+	for m := 0; m < 3; m++ {
+		for _, ss := range [][]int{{0}, {1}, {0, 1}} {
+			a = append(a, c12Op{Op: "join", M: m, Streams: ss})
+		}
+	}
+	for m := 0; m < 3; m++ {
+		a = append(a, c12Op{Op: "leave", M: m})
+	}
+	a = append(a, c12Op{Op: "delstream", S: 0}, c12Op{Op: "newstream", S: 0, Parts: 3})
+	return a
+}
+
+// TestVerifC12Exh runs every operation sequence up to length LEN over the
+// alphabet above through the same executor and oracle as the random search.
+func TestVerifC12Exh(t *testing.T) {
+	maxLen := vfutil.Param("LEN", 4)
+	shard, shards := vfutil.Param("SHARD", 0), vfutil.Param("SHARDS", 1)
+	if v := os.Getenv("VERIF_SHARD"); v != "" {
+		fmt.Sscan(v, &shard)
+	}
+	if v := os.Getenv("VERIF_SHARDS"); v != "" {
+		fmt.Sscan(v, &shards)
+	}
+	alpha := c12Alphabet()
+	vfutil.Exhaustive(t, vfutil.Spec[c12Case]{ID: "C12", Gen: genC12, Run: runC12}, func(yield func(c12Case) bool) {
+		n := 0
+		idx := make([]int, 0, maxLen)
+		var rec func() bool
+		rec = func() bool {
+			if len(idx) > 0 {
+				if n%shards == shard {
+					c := c12Case{Parts: []int{2, 3}}
+					for _, i := range idx {
+						c.Ops = append(c.Ops, alpha[i])
+					}
+					if !yield(c) {
+						return false
+					}
+				}
+				n++
+			}
+			if len(idx) == maxLen {
+				return true
+			}
+			for i := range alpha {
+				idx = append(idx, i)
+				if !rec() {
+					return false
+				}
+				idx = idx[:len(idx)-1]
+			}
+			return true
+		}
+		rec()
+	})
 }
